@@ -252,7 +252,9 @@ func ruleClientBlock(p *Prog, r *Out) {
 	}
 	// interim (1xx) blocks: decoded and checked like any other, their fields left out of the response
 	if fd := p.decl("(*Conn).readHeader"); fd != nil {
-		mark, skip, add, valid := token.NoPos, token.NoPos, token.NoPos, token.NoPos
+		mark, valid := token.NoPos, token.NoPos
+		pmr := p.pmFor(fd)
+		nStore, guarded, clChecked := 0, true, false
 		ast.Inspect(fd.Body, func(n ast.Node) bool {
 			switch x := n.(type) {
 			case *ast.AssignStmt:
@@ -260,21 +262,40 @@ func ruleClientBlock(p *Prog, r *Out) {
 					mark = x.Pos()
 				}
 			case *ast.IfStmt:
-				if squash(p.text(x.Cond)) == "c.block.interim" && len(x.Body.List) == 1 && squash(p.text(x.Body.List[0])) == "continue" {
-					skip = x.Pos()
-				}
 				if squash(p.text(x.Cond)) == "isConnectionSpecific(hf.KeyBytes())" {
 					valid = x.Pos()
 				}
+				// the content-length of any block, interim or not, is parsed and a bad one fails the request
+				if squash(p.text(x.Cond)) == "bytes.Equal(hf.KeyBytes(),StringContentLength)" {
+					under := false
+					for _, g := range p.enclosingGuards(pmr, x) {
+						if strings.Contains(squash(p.text(g.Cond)), "c.block.interim") {
+							under = true
+						}
+					}
+					t := stmtTexts(p, x.Body.List)
+					if !under && len(t) >= 2 && t[0] == "n,err:=parseUint(hf.ValueBytes())" && strings.HasPrefix(t[1], "iferr!=nil{returnc.skipFields(") {
+						clChecked = true
+					}
+				}
 			case *ast.CallExpr:
+				// every store of a field into the response is under "not interim"
 				if squash(p.text(x.Fun)) == "res.Header.AddBytesKV" || squash(p.text(x.Fun)) == "res.Header.SetContentLength" {
-					if !add.IsValid() {
-						add = x.Pos()
+					nStore++
+					ok := false
+					for _, g := range p.knownFacts(pmr, x) {
+						if !g.Val && squash(p.text(g.Cond)) == "c.block.interim" {
+							ok = true
+						}
+					}
+					if !ok || (valid.IsValid() && x.Pos() < valid) {
+						guarded = false
 					}
 				}
 			}
 			return true
 		})
+		okInterim := nStore >= 2 && guarded && clChecked
 		open := false
 		if od := p.decl("(*headerBlock).open"); od != nil {
 			ast.Inspect(od.Body, func(n ast.Node) bool {
@@ -284,7 +305,7 @@ func ruleClientBlock(p *Prog, r *Out) {
 				return true
 			})
 		}
-		r.check(mark.IsValid() && skip.IsValid() && valid.IsValid() && add.IsValid() && skip > valid && skip < add && open, "the fields of an interim block are decoded, checked and left out", p.pos(fd.Pos()), "interim = status < 200 (cleared when a block opens); after the field checks: if interim { continue } before the field is stored", "readHeader adds the fields of a 1xx block to the caller's Response again (or stops checking them): a 103 Early Hints before the 200 leaves its link fields on the final response")
+		r.check(mark.IsValid() && valid.IsValid() && okInterim && open, "the fields of an interim block are decoded, checked and left out", p.pos(fd.Pos()), "interim = status < 200 (cleared when a block opens); every field is checked, content-length parsed; each store into the response is under !interim", "readHeader adds the fields of a 1xx block to the caller's Response again (or stops checking them): a 103 Early Hints before the 200 leaves its link fields on the final response")
 	}
 	// dispatch tail
 	if fd := p.decl("(*Conn).dispatch"); fd != nil {
